@@ -105,6 +105,12 @@ CHECKS["C10"] = dict(text="TLC enumerates the configuration matrix (2 methods x 
     "a best grid value, coef_ the regularised full-data solution with nothing in the numerical null space, predict = X coef_^T; relative alphas are "
     "checked against verified top singular values.", ref="6/C10",
     tech="TLC-enumerated configurations replayed in the code; TLC verifies witnesses by defining equations and recomputes the cross-validation values")
+CHECKS["C13"] = dict(text="TLC enumerates the scenario matrix (all 25 pairs of feature dimensions x 7 transformations x 2 rational rotation angles = 350) and each "
+    "scenario is replayed on the real measures with lattice data; the specification checks in fixed point: every measure is defined (no exception for "
+    "X wider or narrower than Y), pointwise values non-negative, each global value is the RMS of its pointwise values, GRE(X, XA) = 0, GRD(X, XQ) = 0 "
+    "for rational orthogonal Q, training-set GRE <= 1, LRE with all training points as neighbours = pointwise GRE, and GRE/GRD/LRE unchanged under the "
+    "enumerated source rotations/reflections, rescalings and shifts of either space and target rotations (fixed regularisation).", ref="6/C13",
+    tech="TLC-enumerated scenarios replayed in the code; TLC checks metamorphic relations and vanishing/bound laws on the recorded outputs")
 NA = {}
 def main():
     props = [json.loads(l)["id"] for l in open(os.path.join(HERE, "properties.jsonl"))]
